@@ -280,6 +280,20 @@ pub fn run(ctx: &Ctx) -> Report {
         st
     });
     total.merge(clock);
+    // device paths that a truncated fingerprint cannot tell apart, rendered one after the other
+    let mut tw = Stats::new();
+    let twins = fingerprint_twins("/dev/mapper/lustre-mdt", "");
+    let trees = [E::and(E::T(Tst::Name("*.dat".into())), E::A(Act::Print)), E::and(E::T(Tst::Time(Which::M, Cmp::Gt, 30, TUnit::M)), E::A(Act::FPrint("list.out".into())))];
+    for (a, b) in &twins {
+        for t in &trees {
+            for ops in [vec![Op::Scheme(a.clone()), Op::Scheme(b.clone()), Op::Scheme(a.clone())], vec![Op::Scheme(b.clone()), Op::IoMap, Op::Scheme(a.clone())]] {
+                let v = judge(t, None, &ops);
+                tw.record(&v, stable_hash(&(t, &ops)), true, || case_json(t, None, &ops));
+            }
+        }
+    }
+    tw.samples.clear();
+    total.merge(tw);
     // samples: shorten long paths
     total.samples = total
         .samples
@@ -292,7 +306,7 @@ pub fn run(ctx: &Ctx) -> Report {
         .collect();
     Report {
         stats: total,
-        rule: "random compiled expressions (supported vocabulary, <=12 nodes) x histories of 2..6 operations from {scheme(p), io_map()} with p from benign paths and hostile strings (quotes, backslashes, parentheses, comment characters, blanks, non-ASCII, empty, 2-10 kB), modelled as vec(op) + interpreter. Oracle: scheme(p) twice -> identical text (also re-rendered after the whole history); for p != q the two programs, read by the independent reader, differ in exactly one leaf, the first argument of the lipe-scan call, decoding to p resp. q; io_map() is equal at every call. Non-trivial: history with >=2 distinct paths of which one is hostile. Distinct: by (tree, history).".into(),
+        rule: "random compiled expressions (supported vocabulary, <=12 nodes) x histories of 2..6 operations from {scheme(p), io_map()} with p from benign paths and hostile strings (quotes, backslashes, parentheses, comment characters, blanks, non-ASCII, empty, 2-10 kB), modelled as vec(op) + interpreter. Oracle: scheme(p) twice -> identical text (also re-rendered after the whole history); for p != q the two programs, read by the independent reader, differ in exactly one leaf, the first argument of the lipe-scan call, decoding to p resp. q; io_map() is equal at every call. Also: pairs of equal-length paths whose std-hasher values agree in the low 32 bits (found by a birthday search at run time, six ways of feeding the hasher) and pairs that weak fingerprints confuse, rendered one right after the other. Non-trivial: history with >=2 distinct paths of which one is hostile. Distinct: by (tree, history).".into(),
         assumptions: vec!["the harness's reader implements Guile's string syntax".into()],
         exhaustive: false,
     }
